@@ -469,6 +469,9 @@ def fresh(shape, name):
     """-> (value, facts): a fresh symbolic value of the given shape."""
     if isinstance(shape, TInt):
         t = z3.Int(fresh_name(name))
+        if shape.lo is not None or shape.hi is not None:
+            from . import ops
+            ops.RANGES[t.decl().name()] = (shape.lo, shape.hi)
         return t, range_facts(shape, t)
     if isinstance(shape, TBool):
         return z3.Bool(fresh_name(name)), []
